@@ -178,6 +178,9 @@ Section Eval.
       eapply res_ok_bind; [eapply Hrec; [exact Htc|envmono|eauto]|].
       intros [[vb kb] w2] (SV2 & SC2 & X2 & Y2 & Hw2 & Hv2). cbn.
       exists SV2, SC2. split4; auto; eapply ext_trans; eauto.
+    - discriminate.
+    - discriminate.
+    - discriminate.
   Qed.
 End Eval.
 
